@@ -161,6 +161,10 @@ class Index:
                 return False
         return True
 
+    def identical(self, o):
+        """pandas: same elements AND same class AND same attributes (name)"""
+        return type(self) is type(o) and self.equals(o) and getattr(self, "name", None) == getattr(o, "name", None)
+
     def isin(self, labels):
         return mnp.isin(self._v, labels)
 
